@@ -449,8 +449,24 @@ def check_processes(case, ctx):
 
 
 SPEC = S.dataset_spec(max_vars=2, max_extra=1, modes=("raw", "raw", "decoded", "file", "dask"), geom_kwargs={"max_n": 3, "max_j": 2, "max_i": 2})
-MESH_SPEC = S.dataset_spec(convs=["ugrid"], max_vars=2, max_extra=2, modes=("raw", "raw", "decoded"),
-                           geom_kwargs={"max_j": 2, "max_i": 2})
+@st.composite
+def mesh_spec(draw):
+    # (any subset of the optional tables, also edge tables without the edge-node table)
+    enc = draw(S.ugrid_encoding(require_edge_node=draw(st.booleans())))
+    if draw(st.integers(0, 3)) == 0:
+        # the edge grid known only through the edge-face table, while the mesh variable still
+        # names an edge-node table that is gone
+        enc["supply"] = [t for t in enc["supply"] if t not in ("edge_node", "face_edge")]
+        if "edge_face" not in enc["supply"]:
+            enc["supply"].append("edge_face")
+        enc["transposed"] = [t for t in enc["transposed"] if t in enc["supply"] or t == "face_node"]
+        enc["dangling"] = sorted(set(enc["dangling"]) | {"edge_node"})
+        enc["edge_dim_attr"] = False
+    return draw(S.dataset_spec(convs=["ugrid"], max_vars=2, max_extra=2, modes=("raw", "raw", "decoded"),
+                               geom_kwargs={"max_j": 2, "max_i": 2, "enc": enc}))
+
+
+MESH_SPEC = mesh_spec()
 BARE_SPEC = S.dataset_spec(with_vars=False, modes=("raw",), geom_kwargs={"max_n": 3, "max_j": 2, "max_i": 2, "holes": False})
 
 
